@@ -410,15 +410,20 @@ class LabelSet(Ext):
     """np.unique(A[A >= 0]) (optionally minus some values): membership predicate only"""
     type_name = "ndarray(unique labels)"
 
-    def __init__(self, source: SArr, excluded=()):
+    def __init__(self, source: SArr, excluded=(), mask=None):
         self.source = source
         self.excluded = list(excluded)
+        self.mask = mask            # the boolean array used to filter the source (np.unique(src[mask]))
         self.uid = next(_uid)
 
+    def admitted(self, I, j):
+        """row j passes the code's own filter"""
+        return to_z3(self.mask.at(I, j), "bool") if self.mask is not None else z3.BoolVal(True)
+
     def contains(self, I, x):
-        """x >= 0, x occurs in the source at the witness index, x not excluded"""
+        """x occurs in the source at a witness row that passes the filter, and x is not excluded"""
         w = I.path.fresh(f"witness{next(_uid)}", "int")
-        c = z3.And(zint(x) >= 0, w.t >= 0, w.t < zint(self.source.n), zint(self.source.at(I, w)) == zint(x))
+        c = z3.And(w.t >= 0, w.t < zint(self.source.n), self.admitted(I, w), zint(self.source.at(I, w)) == zint(x))
         for e in self.excluded:
             c = z3.And(c, zint(x) != zint(e))
         return c, w
@@ -440,7 +445,7 @@ class LabelSet(Ext):
         """when the set is empty no row p carries an admissible label"""
         n = self.py_len(I)
         lab = self.source.at(I, p)
-        adm = zint(lab) >= 0
+        adm = self.admitted(I, p)
         for e in self.excluded:
             adm = z3.And(adm, zint(lab) != zint(e))
         return z3.Implies(n.t == 0, z3.Not(adm))
@@ -461,7 +466,7 @@ class LabelSet(Ext):
         if m is None:
             return z3.BoolVal(True)
         lab = zint(self.source.at(I, p))
-        return z3.Implies(lab >= 0, m.t >= lab)
+        return z3.Implies(self.admitted(I, p), m.t >= lab)
 
 
 def install_numpy(I):
@@ -546,7 +551,7 @@ def install_numpy(I):
         x = a[0]
         if isinstance(x, SArr) and x.term[0] == "mgather":
             src, msk = x.term[1], x.term[2]
-            return LabelSet(src, ())          # labels[labels >= 0]: checked by the contract that uses it
+            return LabelSet(src, (), mask=msk)
         if isinstance(x, SArr) and x.dtype == "int" and not x.row:
             return SArr(("sorted", x), x.n, (), "int")      # distinct entries assumed (index arrays)
         if isinstance(x, SArr):
@@ -558,7 +563,7 @@ def install_numpy(I):
         U, xs = a[0], a[1]
         if isinstance(U, LabelSet):
             vals = list(xs.data) if isinstance(xs, Tensor) else list(xs)
-            return LabelSet(U.source, U.excluded + vals)
+            return LabelSet(U.source, U.excluded + vals, mask=U.mask)
         raise Unsupported("np.setdiff1d of unsupported operands")
     A["setdiff1d"] = Builtin("np.setdiff1d", setdiff1d)
 
